@@ -76,3 +76,8 @@ SPEC["C43"] = dict(params_q={"D": 1, "L": 1, "S": 1, "B": 1}, params_t={"D": 2, 
                    bounds=VAL_BOUNDS, outside=OUT_COMMON + ["JSON leg of presence (see C05 for the JSON writer/reader agreement)"], r_thorough=R_QUICK,
                    assumptions=["object states are normalised by the generated RepairMasks (API-reachable presence state)",
                                 "frame condition is observed on the TL1/TL2 encodings with the accessed field cleared on both sides"])
+
+SPEC["C07"] = dict(params_q={"D": 1, "L": 1, "S": 1, "B": 1, "resN": 8, "json": 1}, params_t={"D": 1, "L": 2, "S": 2, "B": 2, "resN": 14, "json": 1}, ladder=[{"resN": 4}],
+                   f_pattern="f09*", bounds={"request": "arbitrary request value (its # fields shape the result), sum of lengths <= B", "result": "arbitrary result bytes of symbolic length <= resN"},
+                   outside=OUT_COMMON + ["functions of schemas other than schemas/f/f09_functions.tl and the thorough-tier repository schemas"], r_thorough=R_QUICK,
+                   assumptions=["JSON numbers of symbolic results go through the decimal contract; typed path = generated ReadResultX into the typed result + WriteResultY"])
